@@ -81,7 +81,10 @@ def operators(base, secs):
     if any(s[0] == "Potential-Form" for s in secs):
         # (as.buck4 exists as a factory only - it is not a function of potentialfunctions - but it is a built-in form all the same)
         for nm, opname in (("myform", "table-form-named-like-custom-form"), ("as.zero", "table-form-named-like-builtin-form"), ("as.buck", "table-form-named-like-builtin-form"),
-                           ("as.buck4", "table-form-named-like-builtin-form")):
+                           ("as.buck4", "table-form-named-like-builtin-form"),
+                           # labels are not case-sensitive inside formulas (fix 44f4aaf): the same names in another case are the same functions there
+                           ("MyForm", "table-form-named-like-custom-form"), ("as.Zero", "table-form-named-like-builtin-form"), ("as.Buck", "table-form-named-like-builtin-form"),
+                           ("as.Buck4", "table-form-named-like-builtin-form")):
             new = [list(x) for x in secs] + [["Table-Form:%s" % nm, [["x", "0 1 2 3 4"], ["y", "5 5 5 5 5"]]]]
             yield opname, new, (nm, "Table-Form:" + nm)
 
